@@ -79,6 +79,14 @@ pub fn actions(st: &St, alphabet: &[String]) -> Vec<Op> {
         v.push(Op::SwapRemoveIdx(i));
         v.push(Op::Truncate(i));
     }
+    // arguments far out of range (arithmetic on them must not overflow)
+    for i in [len + 7, usize::MAX / 2, usize::MAX - 4, usize::MAX - 1, usize::MAX] {
+        v.push(Op::SwapRemoveIdx(i));
+        v.push(Op::Truncate(i));
+        if let Some(n) = absent.first() {
+            v.push(Op::Rename(i, (*n).clone()));
+        }
+    }
     v.push(Op::RetainAll);
     v.push(Op::RetainNone);
     v.push(Op::RetainEvenIdx);
